@@ -421,6 +421,13 @@ def report(mod, prop, tier, seed, units, results, extra, t0, origin, args):
         "solver_queries": queries,
         "solver_s": round(solver_s, 2),
         "by_backend": by_backend,
+        "solver_robustness": {
+            "forks_with_an_undecided_side_explored_as_feasible": sum(r.get("unknown_forks", 0) for r in results),
+            "counter_models_rejected_on_validation": sum(r.get("unconfirmed_models", 0) for r in results),
+            "incremental_solver_replaced_after_a_timeout": sum(r.get("solver_rebuilds", 0) for r in results),
+            "note": "every replayed decision is asserted; a re-execution that meets a decision at another site than "
+                    "recorded makes the unit undecided; a counter-model is believed only when it satisfies the path "
+                    "condition and the negated goal, otherwise a fresh solver decides"},
         "second_backend_cvc5": cross_stats,
         "cpython_cross_check": {k: (v if k != "disagree" else v[:5]) for k, v in (getattr(args, "xcheck", None) or {}).items()},
         "files": {k: "sha256:" + v for k, v in sorted(files.items())},
